@@ -7,6 +7,7 @@ import numpy as np
 
 from checks.common import BASE_ASSUMPTIONS, CORE_SHIM_MODULES, perturb
 from oracles import circuit_sem as CS
+from oracles import circuit_sem_ext as CSX
 from oracles import gates_doc as D
 from symx.explore import Obligation
 from symx.run import run_check
@@ -122,6 +123,8 @@ def gate_table():
 # circuit shapes: list of moments, a moment is a list of (gate name, qubit indices[, options])
 # options: tags=(...), key='m' (for 'M'), inv=(bools) (invert mask), ctrl='m' (classical control),
 #          sub=[moments] and reps=n (for 'SUB': nested CircuitOperation)
+#          pauli='XZ', neg=bool (for 'MP': measurement of a Pauli observable, one record bit)
+#          box=(lo, hi) (parameter box of this gate instead of [-BOX, BOX])
 # =================================================================================================
 TWIN_PINS = (0.25, -0.5, 0.75, 1.25, -0.25, 0.5, -1.25, 1.5)
 
@@ -135,6 +138,7 @@ class Built:
         self.ops = []  # every op object created, outer ones in order
         self.ignored = []  # ops carrying the IGN tag (any nesting level)
         self.subops = []  # CircuitOperation objects (possibly tagged), any nesting level
+        self.boxed = []  # ops built with their own parameter box (option box=)
 
     def matrix_of(self, wrong=False):
         first = [True]
@@ -152,11 +156,26 @@ class Built:
 
 
 def _conds(c):
-    """'a' -> key condition; ('a', 'b') -> both; 'sympy:a > b' -> sympy condition over the keys"""
+    """'a' -> key condition; ('a', 'b') -> both; 'sympy:a > b' -> sympy condition over the keys;
+    'idx:a:-2' -> KeyCondition on record -2 of key a; 'mask:a:<index>:<bitmask or ->:<target>:<eq 0/1>'
+    -> BitMaskKeyCondition"""
+    import cirq
     import sympy
 
     cs = [c] if isinstance(c, str) else list(c)
-    return [sympy.parse_expr(x[6:]) if x.startswith('sympy:') else x for x in cs]
+    out = []
+    for x in cs:
+        if x.startswith('sympy:'):
+            out.append(sympy.parse_expr(x[6:]))
+        elif x.startswith('idx:'):
+            _, k, i = x.split(':')
+            out.append(cirq.KeyCondition(cirq.MeasurementKey(k), index=int(i)))
+        elif x.startswith('mask:'):
+            _, k, i, bm, tv, eq = x.split(':')
+            out.append(cirq.BitMaskKeyCondition(cirq.MeasurementKey(k), index=int(i), target_value=int(tv), equal_target=bool(int(eq)), bitmask=None if bm == '-' else int(bm)))
+        else:
+            out.append(x)
+    return out
 
 
 def build(cx, spec, qubits, B=None, top=True, pin_after=None):
@@ -173,6 +192,11 @@ def build(cx, spec, qubits, B=None, top=True, pin_after=None):
             qs = [qubits[i] for i in qi]
             if name == 'M':
                 op = cirq.measure(*qs, key=opt.get('key', 'm'), invert_mask=tuple(opt.get('inv', ())))
+            elif name == 'MP':
+                # Pauli-observable measurement: pauli='XZ' (one letter per qubit), neg=True: coefficient -1
+                P = {'X': cirq.X, 'Y': cirq.Y, 'Z': cirq.Z}
+                ps = cirq.PauliString({q: P[ch] for q, ch in zip(qs, opt['pauli'])}, coefficient=-1 if opt.get('neg') else 1)
+                op = cirq.measure_single_paulistring(ps, key=opt.get('key', 'm'))
             elif name == 'SUB':
                 inner = build(cx, opt['sub'], qubits, B, top=False)
                 op = cirq.CircuitOperation(cirq.FrozenCircuit(inner), repetitions=opt.get('reps', 1))
@@ -180,14 +204,20 @@ def build(cx, spec, qubits, B=None, top=True, pin_after=None):
                 npar, mk, doc = G[name]
                 # vacuity twins: all but the first few parameters are generic CONSTANTS so that the
                 # witness search for the (deliberately wrong) assertion stays easy
+                # box=(lo, hi): parameter box of this gate (default [-BOX, BOX]); e.g. a box without multiples of 1/2
+                # keeps a Z**t non-Clifford for every value
+                lo, hi = opt.get('box', (-BOX, BOX))
+                pins = TWIN_PINS if 'box' not in opt else tuple(lo + f * (hi - lo) for f in (0.37, 0.61, 0.23, 0.83))
                 ps = [
-                    TWIN_PINS[(B.n_params + j) % len(TWIN_PINS)] if (B.pin_after is not None and B.n_params + j >= B.pin_after) else cx.real(f'p{B.n_params + j}', -BOX, BOX)
+                    pins[(B.n_params + j) % len(pins)] if (B.pin_after is not None and B.n_params + j >= B.pin_after) else cx.real(f'p{B.n_params + j}', lo, hi)
                     for j in range(npar)
                 ]
                 B.n_params += npar
                 op = mk(*ps).on(*qs)
                 B.doc[id(op)] = np.asarray(doc(*ps))
                 B.keep.append(op)
+                if 'box' in opt:
+                    B.boxed.append(op)
             if opt.get('ctrl'):
                 base = op
                 op = op.with_classical_controls(*_conds(opt['ctrl']))
@@ -271,21 +301,44 @@ def same_unitary(cx, B, out, qs, label, wrong=False, exact=False, tol=TOL):
     # |g| = 1 needs no VC: the output matrix is a product of unitary operation matrices (C03/C04)
 
 
-def same_meaning(cx, B, out, qs, label, wrong=False, forget_records=False, tol=TOL, out_filter=None):
+def _const_value(e):
+    from symx.snum import SNum
+
+    if isinstance(e, SNum):
+        return e.const_value() if e.is_const() else None
+    if isinstance(e, (int, float, complex, np.number)):
+        return complex(e)
+    return None
+
+
+def same_meaning(cx, B, out, qs, label, wrong=False, forget_records=False, tol=TOL, out_filter=None, prefilter=False):
     """same joint distribution of measurement records and same channel on the system qubits:
     per record r the super-operators agree (see oracles/circuit_sem.py)"""
-    Sin = CS.meaning(B.circuit, qs, B.matrix_of(wrong)).superops()
-    Sout = CS.meaning(out, qs).superops()
+    Sin = CSX.meaning(B.circuit, qs, B.matrix_of(wrong)).superops()
+    Sout = CSX.meaning(out, qs).superops()
     if forget_records:
         Sin, Sout = _forget(Sin), _forget(Sout)
     settle(cx)
     a, b = [], []
+    n_const = 0
     for rec in sorted(set(Sin) | set(Sout), key=repr):
         si, so = Sin.get(rec, {}), Sout.get(rec, {})
         for k in sorted(set(si) | set(so)):
-            a.append(so.get(k, 0))
-            b.append(si.get(k, 0))
-    cx.check(len(a) > 0, label=f'{label}: non-empty meaning')
+            x, y = so.get(k, 0), si.get(k, 0)
+            if prefilter:
+                # entries that are CONSTANTS on both sides are decided by evaluation (exact arithmetic on the float
+                # coefficients): agreement to 1e-9 (< tol) is accepted here, anything else goes to the solver
+                xc, yc = _const_value(x), _const_value(y)
+                if xc is not None and yc is not None and abs(xc - yc) <= 1e-9:
+                    n_const += 1
+                    continue
+            a.append(x)
+            b.append(y)
+    cx.check(len(a) + n_const > 0, label=f'{label}: non-empty meaning')
+    if n_const:
+        cx.check(True, label=f'{label}: constant super-operator entries agree by evaluation (|a-b| <= 1e-9)')
+    if not a:
+        return
     cx.close(np.array(a, dtype=object), np.array(b, dtype=object), tol=tol, label=f'{label}: per-record super-operators agree ({len(set(Sin) | set(Sout))} records)')
 
 
@@ -630,6 +683,80 @@ def fam_stratify(thorough):
     return obs
 
 
+def fam_stratify_readers(thorough):
+    """stratified_circuit: SEVERAL operations controlled by the same key on different qubits (mutually
+    unordered, so a category menu can place the later one in an earlier stratum than the first one),
+    followed by a re-measurement of that key: the re-measurement must stay behind ALL readers"""
+    import cirq
+
+    Ma = {'key': 'a'}
+    Ca = {'ctrl': 'a'}
+    S = {
+        # first reader held back by single-qubit gates on its qubit, second reader free to move left
+        'r2_a': (2, [[('M', [0], Ma), ('H', [1])], [('X', [1], Ca)], [('Y', [0], Ca)], [('M', [0], Ma)]]),
+        'r2_b': (2, [[('M', [0], Ma), ('H', [1])], [('Z', [1])], [('X', [1], Ca)], [('Y', [0], Ca)], [('M', [0], Ma)]]),
+        'r2_mirror': (2, [[('M', [1], Ma), ('X', [0])], [('X', [0], Ca)], [('Y', [1], Ca)], [('M', [1], Ma)]]),
+        # a third reader behind the re-measurement must read the second record
+        'r2_after': (2, [[('M', [0], Ma), ('H', [1])], [('X', [1], Ca)], [('Y', [0], Ca)], [('M', [0], Ma)], [('X', [1], Ca)]]),
+        # both readers in ONE moment
+        'r2_same': (2, [[('M', [0], Ma), ('X', [1])], [('Y', [1], Ca), ('X', [0], Ca)], [('M', [0], Ma)]]),
+        # readers on two other qubits, re-measurement on the first qubit / on the second reader's qubit
+        'r3_succ': (3, [[('M', [0], Ma), ('H', [1])], [('X', [1], Ca)], [('Y', [2], Ca)], [('M', [0], Ma)]]),
+        'r3_other': (3, [[('M', [0], Ma), ('H', [1])], [('X', [1], Ca)], [('Y', [2], Ca)], [('M', [2], Ma)]]),
+    }
+    if thorough:
+        S['T_r3_three'] = (3, [[('X', [0])], [('M', [0], Ma), ('H', [1])], [('Z', [1])], [('X', [1], Ca)], [('Y', [2], Ca)], [('X', [0], Ca)], [('M', [0], Ma)]])
+    on = lambda i: (lambda op: cirq.LineQubit(i) in op.qubits)
+    CATS = [
+        ('none', lambda: ()),
+        ('meas', lambda: (cirq.MeasurementGate,)),
+        ('meas_q1', lambda: (cirq.MeasurementGate, on(1))),
+        ('meas_q0', lambda: (cirq.MeasurementGate, on(0))),
+        ('q1', lambda: (on(1),)),
+        ('q0_q1', lambda: (on(0), on(1))),
+        ('cco', lambda: (cirq.ClassicallyControlledOperation,)),
+        ('meas_cco', lambda: (cirq.MeasurementGate, cirq.ClassicallyControlledOperation)),
+    ]
+
+    def extra(cx, B, out, opt, lab):
+        cats = opt['cats']()
+
+        def cls(op):
+            for i, c in enumerate(cats):
+                if isinstance(c, type) and issubclass(c, cirq.Gate):
+                    if isinstance(op.gate, c):
+                        return i
+                elif isinstance(c, type):
+                    if isinstance(op, c):
+                        return i
+                elif c(op):
+                    return i
+            return len(cats)
+
+        for m in out.moments:
+            cx.check(len({cls(op) for op in m.operations}) <= 1, label=f'{lab}: one category per moment')
+        cx.check(sorted(map(id, out.all_operations())) == sorted(map(id, B.circuit.all_operations())), label=f'{lab}: same operation objects')
+
+    obs = []
+    for sname, (n, shape) in S.items():
+        options = [dict(deep=False, tags_to_ignore=(), cats=cf) for _cn, cf in CATS]
+        obs.append(
+            transformer_ob(
+                f'stratified_circuit.readers.{sname}',
+                shape,
+                n,
+                lambda c, o, cx: cirq.stratified_circuit(c, context=mk_context(o), categories=o['cats']()),
+                options,
+                kind='meaning',
+                exact=True,
+                extra=extra,
+                weight=4 if n == 3 else 2,
+                desc='cirq.stratified_circuit: two / three operations controlled by the same key on different qubits, then a re-measurement of the key; category menus (measurement, qubit predicates, ClassicallyControlledOperation type) that put the readers into different strata: per-record super-operators agree (the re-measurement stays behind every earlier reader), one category per moment, same operation objects',
+            )
+        )
+    return obs
+
+
 def fam_drop_empty(thorough):
     import cirq
 
@@ -810,13 +937,6 @@ def fam_defer(thorough):
         'feedback': (1, [[('X', [0])], [('M', [0], {'key': 'a'})], [('X1', [0], {'ctrl': 'a'})], [('Z', [0])]]),
         'sympy_cond': (2, [[('X', [0]), ('X', [1])], [('M', [0], {'key': 'a'}), ('M', [1], {'key': 'b'})], [('Y', [0], {'ctrl': 'sympy:a > b'})]]),
     }
-    # found on the unchanged tree: an earlier measurement that EQUALS a terminal one (same qubit, same
-    # key) is treated as terminal (set membership by value) and not deferred
-    FINDING = {
-        'ctrl': (2, [[('X', [0])], [('M', [0], {'key': 'a'})], [('Y', [1], {'ctrl': 'a'})], [('X', [0])], [('M', [0], {'key': 'a'})]]),
-        'plain': (1, [[('X', [0])], [('M', [0], {'key': 'a'})], [('X', [0])], [('M', [0], {'key': 'a'})]]),
-    }
-
     def extra(cx, B, out, opt, lab):
         cx.check(_all_measurements_terminal(out), label=f'{lab}: all measurements of the output are terminal')
         cx.check(not any(getattr(o, 'classical_controls', None) for o in out.all_operations()), label=f'{lab}: no classical control left')
@@ -835,31 +955,72 @@ def fam_defer(thorough):
             desc='cirq.defer_measurements: ancilla qubits start in |0>, per-record super-operators on the system qubits (ancillas traced out) agree with the mid-circuit-measurement + classical-control meaning; all output measurements terminal',
         )
         for sname, (n, shape) in S.items()
-    ] + [_defer_finding(FINDING, extra)]
+    ] + _defer_repeated(extra, thorough)
 
 
-def _defer_finding(FINDING, extra):
+def _defer_repeated(extra, thorough):
+    """defer_measurements with REPEATED measurement keys.  Every entry: n, variants, shape(variant).
+    (The first two shapes were `finding.defer_measurements.repeated_key` until the defect was repaired.)"""
     import cirq
 
-    names = list(FINDING)
+    Ma = {'key': 'a'}
 
-    def body(cx, wrong=False):
-        if wrong:
-            twin_budget(cx)
-        n, shape = FINDING[names[cx.choose('shape', len(names))]]
-        qs = cirq.LineQubit.range(n)
-        B = build(cx, shape, qs, pin_after=1 if wrong else None)
-        out = cirq.defer_measurements(B.circuit)
-        extra(cx, B, out, {}, 'defer_measurements(repeated key)')
-        same_meaning(cx, B, out, qs, 'defer_measurements(repeated key)', wrong=wrong)
+    def ctl(c):
+        return {'ctrl': c}
 
-    return Obligation(
-        'finding.defer_measurements.repeated_key',
-        body,
-        twin=None,
-        points=[{'choose:shape': 0}, {'choose:shape': 1}],
-        desc='defer_measurements on a circuit measuring the same qubit under the same key twice, the second time terminally (with / without an operation controlled by the key)',
-    )
+    IDX2 = [f'idx:a:{i}' for i in (0, 1, -1, -2)]
+    IDX3 = [f'idx:a:{i}' for i in (0, 1, 2, -1, -2, -3)]
+    # (a & 1) == 1 | (a & 2) != 0 | a == 2 | a != 0 (default arguments)   on records 0 / 1 / -1 / -2
+    MASKS = [f'mask:a:{i}:{bm}:{tv}:{eq}' for i in (0, 1, -1, -2) for (bm, tv, eq) in (('1', 1, 1), ('2', 0, 0), ('-', 2, 1))] + ['mask:a:-1:-:0:0', 'mask:a:0:-:0:0']
+    F = {
+        # an earlier measurement EQUAL to the terminal one (same qubit, same key), with / without a reader
+        'equal_terminal_ctrl': (2, ['a', 'idx:a:0', 'idx:a:-1', 'mask:a:0:-:0:0'], lambda v: [[('X', [0])], [('M', [0], Ma)], [('Y', [1], ctl(v))], [('X', [0])], [('M', [0], Ma)]]),
+        'equal_terminal_plain': (1, [None], lambda v: [[('X', [0])], [('M', [0], Ma)], [('X', [0])], [('M', [0], Ma)]]),
+        'equal_terminal_inv': (1, [None], lambda v: [[('X', [0])], [('M', [0], {'key': 'a', 'inv': (True,)})], [('X', [0])], [('M', [0], {'key': 'a', 'inv': (True,)})]]),
+        # terminal measurement of a key that was measured earlier: the ORDER of the records of the key
+        'order_other_qubit': (2, [None], lambda v: [[('X', [0]), ('X', [1])], [('M', [0], Ma)], [('X', [0])], [('M', [1], Ma)]]),
+        'order_terminal_first': (2, [None], lambda v: [[('X', [0]), ('X', [1])], [('M', [1], Ma)], [('M', [0], Ma)], [('X', [0])]]),
+        'order_three': (2, [None], lambda v: [[('X', [0]), ('X', [1])], [('M', [0], Ma)], [('X', [0])], [('M', [1], Ma)], [('M', [0], Ma)]]),
+        'order_two_keys': (1, [None], lambda v: [[('X', [0])], [('M', [0], Ma)], [('X', [0])], [('M', [0], {'key': 'b'})], [('X', [0])], [('M', [0], Ma)]]),
+        # KeyCondition with every valid index on a key measured twice (reader behind both / between) / three times
+        'twice_idx': (2, IDX2, lambda v: [[('X', [0])], [('M', [0], Ma)], [('X', [0])], [('M', [0], Ma)], [('Y', [1], ctl(v))]]),
+        'twice_idx_then_terminal': (2, IDX2, lambda v: [[('X', [0]), ('X', [1])], [('M', [0], Ma)], [('M', [1], Ma)], [('Y', [1], ctl(v))], [('M', [0], Ma)]]),
+        'thrice_idx': (2, IDX3, lambda v: [[('M', [0], Ma)], [('M', [1], Ma)], [('X', [0])], [('M', [0], Ma)], [('Y', [1], ctl(v))]]),
+        # BitMaskKeyCondition (bitmask / target / == / !=) with every valid index on a two-bit key measured twice
+        'twice_mask': (2, MASKS, lambda v: [[('M', [0, 1], Ma)], [('X', [0])], [('M', [0, 1], Ma)], [('Y', [0], ctl(v))]]),
+        # two readers with different indices of the same key
+        'twice_two_readers': (2, [('idx:a:0', 'idx:a:1'), ('idx:a:-2', 'mask:a:-1:-:0:0'), ('idx:a:1', 'idx:a:-1')], lambda v: [[('M', [0], Ma)], [('X', [0])], [('M', [0], Ma)], [('Y', [1], ctl(v[0]))], [('X', [1], ctl(v[1]))]]),
+    }
+    if thorough:
+        F['T_thrice_mask'] = (2, [f'mask:a:{i}:-:0:0' for i in (0, 1, 2, -1, -2, -3)], lambda v: [[('X', [0]), ('X', [1])], [('M', [0], Ma)], [('M', [1], Ma)], [('X', [0])], [('M', [0], Ma)], [('Y', [1], ctl(v))], [('M', [1], {'key': 'b'})]])
+
+    obs = []
+    for fname, (n, variants, shape_fn) in F.items():
+
+        def body(cx, wrong=False, n=n, variants=variants, shape_fn=shape_fn, fname=fname):
+            if wrong:
+                twin_budget(cx)
+            qs = cirq.LineQubit.range(n)
+            vi = cx.choose('variant', len(variants)) if len(variants) > 1 else 0
+            B = build(cx, shape_fn(variants[vi]), qs, pin_after=1 if wrong else None)
+            snap = snapshot(B.circuit)
+            out = cirq.defer_measurements(B.circuit)
+            lab = f'defer_measurements.repeated.{fname}[variant{vi}]'
+            check_unchanged(cx, B.circuit, snap, lab)
+            extra(cx, B, out, {}, lab)
+            same_meaning(cx, B, out, qs, lab, wrong=wrong)
+
+        obs.append(
+            Obligation(
+                f'defer_measurements.repeated.{fname}',
+                body,
+                twin=lambda cx, b=body: b(cx, wrong=True),
+                points=[{'choose:variant': i} for i in range(min(len(variants), 6))] if len(variants) > 1 else [{}],
+                opts={'weight': 4},
+                desc='cirq.defer_measurements with a measurement key measured two / three times (earlier measurement equal to the terminal one, terminal measurement of a key measured earlier, KeyCondition / BitMaskKeyCondition with every valid positive and negative record index): per-record super-operators agree (record ORDER of the key included), all output measurements terminal, no classical control left',
+            )
+        )
+    return obs
 
 
 def fam_dephase_drop(thorough):
@@ -941,6 +1102,82 @@ def fam_dephase_drop(thorough):
         cx.check(raised, label='drop_terminal_measurements: documented ValueError (non-terminal measurement / deep=False)')
 
     obs.append(Obligation('drop_terminal_measurements.raises', body_nonterminal, twin=None, points=[{'choose:how': 0}, {'choose:how': 1}], desc='documented ValueError for non-terminal measurements and for deep=False'))
+    return obs
+
+
+# =================================================================================================
+# drop_diagonal_before_measurement
+# =================================================================================================
+def fam_drop_diagonal(thorough):
+    """cirq.drop_diagonal_before_measurement: Z**t / CZ**t (symbolic exponents) in front of
+    computational-basis measurements (removable), Pauli-observable measurements in the X / Y / Z basis,
+    sub-circuits that rotate and then measure, partially measured CZ, broken chains, ignored tags.
+    shape -> (n, moments, 'dropped' | 'kept' | None): with 'dropped' the documentation promises that no
+    Z / CZ power is left in the output, with 'kept' the CZ power must still be there"""
+    import cirq
+
+    Ma, Mb = {'key': 'a'}, {'key': 'b'}
+    S = {
+        # removable (docstring examples with symbolic exponents)
+        'z_m': (1, [[('X', [0])], [('Z', [0])], [('M', [0], Ma)]], 'dropped'),
+        'z_cz_mm': (2, [[('X', [0]), ('X', [1])], [('Z', [0])], [('CZ', [0, 1])], [('M', [0], Ma), ('M', [1], Mb)]], 'dropped'),
+        'cz_joint': (2, [[('X', [0]), ('Y', [1])], [('CZ', [0, 1])], [('Z', [1])], [('M', [0, 1], {'key': 'a', 'inv': (True, False)})]], 'dropped'),
+        'cz_mm_moments': (2, [[('X', [0]), ('X', [1])], [('CZ', [0, 1])], [('M', [0], Ma)], [('M', [1], Mb)]], 'dropped'),
+        # Pauli-observable measurements: only the computational basis absorbs a diagonal gate
+        'z_mpx': (1, [[('X', [0])], [('Z', [0])], [('MP', [0], {'key': 'a', 'pauli': 'X'})]], None),
+        'z_mpy': (1, [[('X', [0])], [('Z', [0])], [('MP', [0], {'key': 'a', 'pauli': 'Y', 'neg': True})]], None),
+        'z_mpz': (1, [[('X', [0])], [('Z', [0])], [('MP', [0], {'key': 'a', 'pauli': 'Z'})]], None),
+        'cz_mpxz': (2, [[('X', [0]), ('X', [1])], [('CZ', [0, 1])], [('MP', [0, 1], {'key': 'a', 'pauli': 'XZ'})]], 'kept'),
+        'cz_mpx_m': (2, [[('X', [0]), ('X', [1])], [('CZ', [0, 1])], [('MP', [0], {'key': 'a', 'pauli': 'X'}), ('M', [1], Mb)]], 'kept'),
+        'z_mpx_m': (1, [[('X', [0])], [('Z', [0])], [('MP', [0], {'key': 'a', 'pauli': 'X'})], [('Z', [0])], [('M', [0], Mb)]], None),
+        # sub-circuits that rotate and then measure / that measure directly
+        'z_sub_h_m': (1, [[('X', [0])], [('Z', [0])], [('SUB', [0], _sub([[('H1', [0])], [('M', [0], Ma)]]))]], None),
+        'z_sub_x_m': (1, [[('Z', [0])], [('SUB', [0], _sub([[('X', [0])], [('Z', [0])], [('M', [0], Ma)]]))]], None),
+        'cz_sub_h_m_m': (2, [[('X', [0]), ('X', [1])], [('CZ', [0, 1])], [('SUB', [0], _sub([[('H1', [0])], [('M', [0], Ma)]])), ('M', [1], Mb)]], 'kept'),
+        'z_sub_m': (1, [[('X', [0])], [('Z', [0])], [('SUB', [0], _sub([[('M', [0], Ma)]]))]], None),
+        # partially measured CZ, chains broken by a later gate
+        'cz_partial': (2, [[('X', [0]), ('X', [1])], [('CZ', [0, 1])], [('M', [0], Ma)], [('X', [1])]], 'kept'),
+        'cz_partial_z': (2, [[('X', [0]), ('X', [1])], [('CZ', [0, 1])], [('Z', [0])], [('M', [0], Ma)]], None),
+        'cz_broken': (2, [[('X', [0]), ('X', [1])], [('CZ', [0, 1])], [('M', [0], Ma), ('H', [1])], [('M', [1], Mb)]], 'kept'),
+        'z_x_m': (1, [[('Z', [0])], [('X', [0])], [('Z', [0])], [('M', [0], Ma)], [('X', [0])], [('Z', [0])]], None),
+        'z_m_z_m': (1, [[('X', [0])], [('Z', [0])], [('M', [0], Ma)], [('X', [0])], [('Z', [0])], [('M', [0], Mb)]], None),
+        # classical control, ignored tags
+        'ctrl_z_m': (2, [[('X', [0]), ('X', [1])], [('M', [0], Ma)], [('Z', [1], {'ctrl': 'a'})], [('M', [1], Mb)]], None),
+        'z_ctrl_x_m': (2, [[('X', [0]), ('X', [1])], [('M', [0], Ma), ('Z', [1])], [('X', [1], {'ctrl': 'a'})], [('M', [1], Mb)]], None),
+        'ign_z_m': (1, [[('X', [0])], [('Z', [0], T_IGN)], [('M', [0], Ma)]], None),
+        'ign_cz_mm': (2, [[('X', [0]), ('X', [1])], [('Z', [1])], [('CZ', [0, 1], T_IGN)], [('M', [0], Ma), ('M', [1], Mb)]], None),
+    }
+    if thorough:
+        S['T_cz_mpyy'] = (2, [[('X', [0]), ('X', [1])], [('Z', [0])], [('CZ', [0, 1])], [('MP', [0, 1], {'key': 'a', 'pauli': 'YY', 'neg': True})], [('M', [0, 1], Mb)]], None)
+        S['T_sub_deep'] = (2, [[('X', [0])], [('Z', [0])], [('SUB', [0, 1], _sub([[('X', [1])], [('CZ', [0, 1])], [('MP', [0], {'key': 'a', 'pauli': 'X'}), ('M', [1], Mb)]]))]], None)
+
+    def n_diag(circ):
+        return sum(1 for op in CS.flat_ops(circ) if isinstance(op.gate, (cirq.ZPowGate, cirq.CZPowGate)))
+
+    def n_cz(circ):
+        return sum(1 for op in CS.flat_ops(circ) if isinstance(op.gate, cirq.CZPowGate))
+
+    obs = []
+    for sname, (n, shape, promise) in S.items():
+
+        def extra(cx, B, out, opt, lab, promise=promise):
+            if promise == 'dropped':
+                cx.check(n_diag(out) == 0, label=f'{lab}: documented removal: no Z / CZ power left in front of the computational-basis measurements')
+            if promise == 'kept':
+                cx.check(n_cz(out) == n_cz(B.circuit), label=f'{lab}: the CZ power in front of a non-computational-basis / partial measurement is kept')
+
+        obs.append(
+            transformer_ob(
+                f'drop_diagonal_before_measurement.{sname}',
+                shape,
+                n,
+                lambda c, o, cx: cirq.drop_diagonal_before_measurement(c, context=mk_context(o)) if o.get('ctx', True) else cirq.drop_diagonal_before_measurement(c),
+                opts_for(shape) + ([{'ctx': False}] if sname in ('z_m', 'z_mpx') else []),
+                kind='meaning',
+                extra=extra,
+                desc='cirq.drop_diagonal_before_measurement (runs eject_z first) with symbolic Z**t / CZ**t: per-record super-operators agree (computational-basis MeasurementGate absorbs the diagonal gate; Pauli-observable measurements in X / Y basis, sub-circuits that rotate and then measure, partially measured CZ, chains broken by later gates and ignored tags do not); documented removal / retention counted',
+            )
+        )
     return obs
 
 
@@ -1299,6 +1536,260 @@ def fam_gauge(thorough):
 
 
 # =================================================================================================
+# multi-moment gauge transformers (CPhaseGaugeTransformerMM) next to operations WITHOUT a gate
+# =================================================================================================
+class ScriptedGenerator(np.random.Generator):
+    """the multi-moment gauge transformers insist on a np.random.Generator instance: a subclass whose
+    draws are those of ScriptedPrng (every choice a solver-explored selector)"""
+
+    def __new__(cls, *a, **k):
+        return super().__new__(cls, np.random.PCG64(0))
+
+    def __init__(self, cx, **kw):
+        self._s = ScriptedPrng(cx, **kw)
+
+    def choice(self, *a, **k):
+        return self._s.choice(*a, **k)
+
+    def random(self, *a, **k):
+        return self._s.random()
+
+
+def fam_gauge_mm(thorough):
+    import cirq
+    from cirq.transformers.gauge_compiling.multi_moment_cphase_gauge import CPhaseGaugeTransformerMM
+
+    SUBX = ('SUB', [2], _sub([[('X', [2])]]))
+    S = {
+        # a CircuitOperation (no gate) next to a target CZ**t: the moment must be left alone, the next one is gauged
+        'sub_next_cz': (3, [[('CZ', [0, 1]), SUBX], [('CZ', [1, 2])]], 'unitary'),
+        'cz_sub_z': (2, [[('CZ', [0, 1])], [('SUB', [0, 1], _sub([[('X', [0])], [('CZ', [0, 1])]]))], [('Z', [0])]], 'unitary'),
+        'sub_then_block3': (3, [[('CZ', [0, 1]), SUBX], [('Z', [0]), ('CZ', [1, 2])]], 'unitary'),
+        'sub2q_only_target': (2, [[('X', [0])], [('CZ', [0, 1])], [('SUB', [0, 1], _sub([[('CZ', [0, 1])]]))]], 'unitary'),
+        # healthy multi-moment blocks: CZ**t, Pauli, Z**t in consecutive target moments
+        'block_cz_z_pauli': (3, [[('CZ', [0, 1]), ('X1', [2])], [('Z', [0]), ('CZ', [1, 2])]], 'unitary'),
+        'block_same_pair': (2, [[('X', [0])], [('CZ', [0, 1])], [('CZ', [0, 1])], [('Y', [1])]], 'unitary'),
+        # unsupported gate / ignored tag in the moment
+        'unsupported_h': (3, [[('CZ', [0, 1]), ('H', [2])], [('CZ', [1, 2])]], 'unitary'),
+        'ign_cz': (2, [[('CZ', [0, 1], T_IGN)], [('CZ', [0, 1])]], 'unitary'),
+        # a classically controlled operation has no gate either
+        'ctrl_next_cz': (3, [[('M', [2], {'key': 'a'})], [('CZ', [0, 1]), ('X1', [2], {'ctrl': 'a'})], [('CZ', [0, 1])]], 'meaning'),
+    }
+    # blocks with three active qubits: 64 gauges; in the quick tier the first draw is fixed (X)
+    FIX_FIRST = () if thorough else ('sub_then_block3', 'block_cz_z_pauli')
+    if thorough:
+        S['T_block3'] = (3, [[('CZ', [0, 1]), ('Z', [2])], [('Y1', [0]), ('CZ', [1, 2])], [('CZ', [0, 1]), SUBX], [('CZ', [0, 2])]], 'unitary')
+
+    def gateless(circ):
+        return [op for op in circ.all_operations() if op.gate is None]
+
+    def extra(cx, B, out, opt, lab):
+        for k, op in enumerate(gateless(B.circuit)):
+            cx.check(any(o is op for o in out.all_operations()), label=f'{lab}: operation without a gate #{k} is still there (identical object)')
+        n_cz = lambda c: sum(1 for op in c.all_operations() if isinstance(op.gate, cirq.CZPowGate))
+        cx.check(n_cz(out) == n_cz(B.circuit), label=f'{lab}: same number of CZ powers')
+
+    obs = []
+    for sname, (n, shape, kind) in S.items():
+        obs.append(
+            transformer_ob(
+                f'gauge_mm.cphase.{sname}',
+                shape,
+                n,
+                lambda c, o, cx, fx=([1] if sname in FIX_FIRST else []): CPhaseGaugeTransformerMM()(c, context=mk_context(o), rng_or_seed=ScriptedGenerator(cx, fixed=fx)),
+                opts_for(shape, deep=False),
+                kind=kind,
+                extra=extra,
+                weight=6,
+                desc='CPhaseGaugeTransformerMM (multi-moment gauge compiling) with SYMBOLIC CZ**t / Z**t and every scripted Pauli choice of the left moment: moments that hold an operation without a gate (CircuitOperation, classically controlled operation), an unsupported gate or an ignored tag are left alone and no operation disappears; out*in^dagger = g*I (per-record super-operators with classical control)',
+            )
+        )
+    return obs
+
+
+# =================================================================================================
+# add_dynamical_decoupling: pending pulses pulled through chains of two-qubit Clifford gates
+# =================================================================================================
+NONCLIFF = {'box': (0.01, 0.49)}  # Z**t / X**t / CZ**t with t in this box has no stabilizer effect for ANY value
+
+
+def dd_schemas():
+    import cirq
+
+    return [('XX_PAIR', 'XX_PAIR'), ('X_XINV', 'X_XINV'), ('YY_PAIR', 'YY_PAIR'), ('Y_YINV', 'Y_YINV'), ('DEFAULT', 'DEFAULT'), ('custom_YZX', (cirq.Y, cirq.Z, cirq.X))]
+
+
+def fam_dd(thorough):
+    """Solver-driven bounded exploration over circuit SHAPES (finite selectors) with SYMBOLIC wall gates.
+
+    layout on qubits r=0, p=1, q=2 (one moment per line):
+        head    single-qubit Cliffords on every qubit (opens the busy range of each qubit)
+        idle    one single-qubit Clifford on a selected qubit / nothing (the other qubits are insertable)
+        chain   two (thorough: up to three) two-qubit Clifford gates in ADJACENT moments, each from
+                {CNOT(a,b), CNOT(b,a), CZ(a,b)}: (r,p) then (p,q) [then (r,p) / (r,q)]
+        wall    non-Clifford gates with symbolic exponent in (0.01, 0.49) (Z**t, X**t, CZ**t), concrete T,
+                or a measurement, on selected qubits
+        tail    single-qubit Cliffords on every qubit, optionally one more idle moment before
+    for every schema (5 names + a custom Y,Z,X sequence) and single_qubit_gate_moments_only on / off"""
+    import cirq
+
+    H0 = [('H1', [0]), ('S', [1]), ('H1', [2])]
+    TAIL = [('H1', [0]), ('H1', [1]), ('S', [2])]
+    IDLE = [[('H1', [0])], [('S', [1])], [('X1', [2])], []]
+    G1 = [('CNOT', [0, 1]), ('CNOT', [1, 0]), ('CZ1', [0, 1])]
+    G2 = [('CNOT', [1, 2]), ('CNOT', [2, 1]), ('CZ1', [1, 2])]
+    G3 = [None, ('CNOT', [0, 1]), ('CZ1', [0, 2]), ('CNOT', [2, 0])]
+    WALL_U = [
+        [('Z', [2], NONCLIFF)],
+        [('X', [1], NONCLIFF)],
+        [('Z', [0], NONCLIFF), ('H1', [2])],
+        [('CZ', [1, 2], NONCLIFF)],
+        [('T', [2]), ('Z', [0], NONCLIFF)],
+    ]
+    WALL_M = [[('M', [2], {'key': 'a'})], [('M', [1], {'key': 'a'}), ('Z', [2], NONCLIFF)], [('M', [0, 2], {'key': 'a'})]]
+    schemas = dd_schemas()
+
+    def shape_of(cx, walls, with_g3):
+        wall = walls[cx.choose('wall', len(walls))]
+        # the measurement wall next to a symbolic gate is costly (3-qubit super-operators with symbolic entries):
+        # in the quick tier it is combined with the first idle pattern only
+        heavy = (not thorough) and any(it[0] == 'M' for it in wall) and any(len(it) > 2 and 'box' in it[2] for it in wall)
+        idle = IDLE[0] if heavy else IDLE[cx.choose('idle', len(IDLE))]
+        g1 = G1[cx.choose('g1', len(G1))]
+        g2 = G2[cx.choose('g2', len(G2))]
+        g3 = G3[cx.choose('g3', len(G3))] if with_g3 else None
+        gap = cx.choose('gap', 2) if with_g3 else 0
+        return [H0, idle, [g1], [g2]] + ([[g3]] if g3 else []) + [wall] + ([[]] if gap else []) + [TAIL]
+
+    def mk(name, schema, walls, kind, with_g3, weight):
+        def body(cx, wrong=False):
+            if wrong:
+                twin_budget(cx)
+            qs = cirq.LineQubit.range(3)
+            sq = bool(cx.choose('sq_only', 2))
+            B = build(cx, shape_of(cx, walls, with_g3), qs, pin_after=1 if wrong else None)
+            snap = snapshot(B.circuit)
+            out = cirq.add_dynamical_decoupling(B.circuit, schema=schema, single_qubit_gate_moments_only=sq)
+            lab = f'{name}[sq_only={sq}]'
+            check_unchanged(cx, B.circuit, snap, lab)
+            # "This transformer preserves the structure of the original circuit": same number of moments, every
+            # original two-qubit / non-Clifford / measurement operation still in its moment
+            cx.check(len(out.moments) == len(B.circuit.moments), label=f'{lab}: number of moments preserved')
+            walls_ = {id(op) for op in B.boxed}
+            for i, m in enumerate(B.circuit.moments):
+                for op in m.operations:
+                    if len(op.qubits) > 1 or cirq.is_measurement(op) or id(op) in walls_:
+                        cx.check(any(o is op for o in out.moments[i].operations), label=f'{lab}: multi-qubit / wall operation stays (identical object) in its moment')
+            if kind == 'unitary':
+                same_unitary(cx, B, out, qs, lab, wrong=wrong)
+            else:
+                same_meaning(cx, B, out, qs, lab, wrong=wrong, prefilter=True)
+
+        return Obligation(
+            name,
+            body,
+            twin=lambda cx: body(cx, wrong=True),
+            opts={'weight': weight},
+            desc='cirq.add_dynamical_decoupling: decoupling pulses inserted in idle slots and pulled through chains of two-qubit Clifford gates in adjacent moments until they meet a wall (non-Clifford gate with SYMBOLIC exponent / measurement): out*in^dagger = g*I for every exponent in the box (per-record super-operators for measurement walls); circuit structure preserved. Shapes, schema and single_qubit_gate_moments_only are finite selectors (bounded exploration).',
+        )
+
+    obs = []
+    for sname, schema in schemas:
+        obs.append(mk(f'dynamical_decoupling.chain.{sname}', schema, WALL_U, 'unitary', thorough, 8))
+    for sname, schema in schemas if thorough else (schemas[0], schemas[4]):
+        obs.append(mk(f'dynamical_decoupling.chain_meas.{sname}', schema, WALL_M, 'meaning', False, 8))
+    return obs
+
+
+# =================================================================================================
+# merge_single_qubit_gates_to_phxz_symbolized: symbols SHARED between single-qubit and two-qubit gates
+# =================================================================================================
+def fam_symbolized_merge(thorough):
+    """BOUNDED EXPLORATION, labelled as such: the pass re-synthesises single-qubit matrices numerically
+    (single_qubit_matrix_to_phxz: np.angle / arctan2), so the values of every symbol that occurs in a
+    single-qubit gate are solver-CHOSEN from a small lattice (every combination is a path) and flow through
+    the real code as floats.  Genuinely symbolic: the sweep values of a symbol `w` that only occurs in a
+    two-qubit gate (one fresh real per sweep point, carried through the returned sweep into the resolved
+    output).  Input side: the harness resolves the expressions itself and uses the documented matrices."""
+    import cirq
+    import sympy
+
+    LAT = (0.25, -0.5, 1.0, 0.0)
+    P0 = ((0.25, -0.5), (0.0, 1.0))
+    # shape: list of moments of (gate, qubits, exponent expression over s, t, w | None for the concrete menu gates)
+    S = {
+        'x_cz_shared': (['s', 't'], [[('X', [0], 's')], [('CZ', [0, 1], 's')], [('Y', [0], 't')]]),
+        'sum_in_1q': (['s', 't'], [[('X', [0], 's + t')], [('CZ', [0, 1], 's')], [('Y', [1], 't'), ('H1', [0], None)]]),
+        'sum_in_2q': (['s', 't'], [[('X', [0], 's'), ('X', [1], 't')], [('CZ', [0, 1], 's + t')], [('Z', [0], 's')]]),
+        'unshared_w': (['s', 't', 'w'], [[('X', [0], 's')], [('CZ', [0, 1], 'w')], [('Y', [0], 't')], [('X1', [0], None)]]),
+        'shared_and_w': (['s', 't', 'w'], [[('X', [0], 's')], [('ZZ', [0, 1], 's')], [('CZ', [0, 1], 'w')], [('Y', [1], 's + t')]]),
+        'two_2q_shared': (['s', 't'], [[('Y', [0], 's')], [('CZ', [0, 1], 's')], [('X', [1], 't')], [('ISWAP', [0, 1], 't')], [('X', [0], 's')]]),
+    }
+    G = gate_table()
+    obs = []
+    for sname, (syms, shape) in S.items():
+
+        def body(cx, wrong=False, syms=syms, shape=shape, sname=sname):
+            if wrong:
+                twin_budget(cx)
+            qs = cirq.LineQubit.range(2)
+            S_ = {n: sympy.Symbol(n) for n in syms}
+            # sweep points: s, t lattice-chosen, w symbolic
+            i0 = cx.choose('point0', len(P0))
+            pts = [dict(s=P0[i0][0], t=P0[i0][1]), dict(s=LAT[cx.choose('s1', len(LAT))], t=LAT[cx.choose('t1', len(LAT))])]
+            if 'w' in syms:
+                for k, pt in enumerate(pts):
+                    pt['w'] = (0.3, 0.7)[k] if wrong else cx.real(f'w{k}', -BOX, BOX)
+            # parameterised circuit (sympy) for the pass
+            moments = []
+            for mspec in shape:
+                ops = []
+                for name, qi, expr in mspec:
+                    npar, mk, _doc = G[name]
+                    ops.append((mk(sympy.parse_expr(expr, local_dict=S_)) if npar else mk()).on(*[qs[i] for i in qi]))
+                moments.append(cirq.Moment(ops))
+            circuit = cirq.Circuit(moments)
+            snap = snapshot(circuit)
+            sweep = cirq.ListSweep([cirq.ParamResolver({S_[n]: pt[n] for n in syms}) for pt in pts])
+            new_circuit, new_sweep = cirq.merge_single_qubit_gates_to_phxz_symbolized(circuit, sweep=sweep)
+            lab = f'merge_1q_symbolized.{sname}'
+            check_unchanged(cx, circuit, snap, lab)
+            out_pts = list(new_sweep)
+            cx.check(len(out_pts) == len(pts), label=f'{lab}: the returned sweep has as many points as the input sweep')
+            cx.check(cirq.parameter_names(new_circuit) <= set().union(*[set(map(str, r.param_dict)) for r in out_pts]), label=f'{lab}: every symbol of the returned circuit is assigned by the returned sweep')
+            for k, (pt, res) in enumerate(zip(pts, out_pts)):
+                # input resolved by the harness: plain Python evaluation of the expression, documented matrices
+                B = Built()
+                rmoments = []
+                for mspec in shape:
+                    ops = []
+                    for name, qi, expr in mspec:
+                        npar, mk, doc = G[name]
+                        args = [eval(expr, {'__builtins__': {}}, dict(pt))] if npar else []
+                        op = mk(*args).on(*[qs[i] for i in qi])
+                        B.doc[id(op)] = np.asarray(doc(*args))
+                        B.keep.append(op)
+                        ops.append(op)
+                    rmoments.append(cirq.Moment(ops))
+                B.circuit = cirq.Circuit(rmoments)
+                out = cirq.resolve_parameters(new_circuit, res)
+                cx.check(not cirq.is_parameterized(out), label=f'{lab}[point{k}]: fully resolved by the returned sweep point')
+                same_unitary(cx, B, out, qs, f'{lab}[point{k}]', wrong=wrong)
+
+        obs.append(
+            Obligation(
+                f'merge_1q_symbolized.{sname}',
+                body,
+                twin=lambda cx, b=body: b(cx, wrong=True),
+                points=[{'choose:point0': 0, 'choose:s1': 1, 'choose:t1': 2}, {'choose:point0': 1, 'choose:s1': 0, 'choose:t1': 3}, {'choose:point0': 0, 'choose:s1': 3, 'choose:t1': 3}],
+                opts={'weight': 4},
+                desc='cirq.merge_single_qubit_gates_to_phxz_symbolized with symbols shared between single-qubit and two-qubit gates and expressions s + t: for both sweep points the returned circuit resolved with the returned sweep point equals the input resolved with the input sweep point up to global phase. BOUNDED EXPLORATION: s, t take solver-chosen lattice values (numeric re-synthesis inside); only the sweep values of the two-qubit-only symbol w are symbolic reals.',
+            )
+        )
+    return obs
+
+
+# =================================================================================================
 # symbolize (resolved back) and the @transformer decorator
 # =================================================================================================
 def fam_symbolize(thorough):
@@ -1402,7 +1893,7 @@ def fam_decorator(thorough):
 def obligations(tier):
     thorough = tier != 'quick'
     obs = []
-    for fam in (fam_eject_z, fam_eject_pp, fam_align, fam_stratify, fam_drop_empty, fam_insertion_sort, fam_expand, fam_sync, fam_defer, fam_dephase_drop, fam_tags, fam_primitives, fam_gauge, fam_symbolize, fam_decorator):
+    for fam in (fam_eject_z, fam_eject_pp, fam_align, fam_stratify, fam_stratify_readers, fam_drop_empty, fam_insertion_sort, fam_expand, fam_sync, fam_defer, fam_dephase_drop, fam_drop_diagonal, fam_tags, fam_primitives, fam_gauge, fam_gauge_mm, fam_dd, fam_symbolized_merge, fam_symbolize, fam_decorator):
         obs.extend(fam(thorough))
     names = [o.name for o in obs]
     assert len(names) == len(set(names)), [n for n in names if names.count(n) > 1]
